@@ -174,12 +174,22 @@ def any_active(o, acts, target):
     return o.or_(*cs) if cs else False
 
 
+def unwrap(t):
+    """a task is a tree, or {'W': data width, 'tree': tree}; sets the module-level data width"""
+    global W
+    if isinstance(t, dict):
+        W = t['W']
+        return t['tree']
+    W = 3
+    return t
+
+
 def replay(tree, inputs, reg0=0, regd0=0, mem0=None):
     """Replayer on the real Simulation: one cycle from the given state, then a second cycle to
     observe registers / memory."""
     import pyrtl
     from spec.ops import IntOps
-    tree = _totuple(tree)
+    tree = _totuple(unwrap(tree))
     try:
         tags, used = elaborate(tree)
     except pyrtl.PyrtlError as e:
@@ -220,7 +230,7 @@ def nonexclusive_accepted(tree):
     """Replayer: a program with two assignments to one target active together must be rejected."""
     import pyrtl
     from spec.ops import IntOps
-    tree = _totuple(tree)
+    tree = _totuple(unwrap(tree))
     try:
         tags, used = elaborate(tree)
     except pyrtl.PyrtlError:
